@@ -454,6 +454,10 @@ func run(rp *explore.Report, tier string) {
 			expectValue(t, "default-used-null", fmt.Sprintf("query($x: %s = %s) { %s(v: $x) }", t.gql, lit, f), map[string]interface{}{"x": nil}, v.want)
 			// default ignored: a non-null value is supplied
 			expectValue(t, "default-ignored", fmt.Sprintf("query($x: %s = %s) { %s(v: $x) }", t.gql, other.lit, f), map[string]interface{}{"x": v.js}, v.want)
+			// the argument sits in a named fragment (variables and their defaults are in scope there too)
+			expectValue(t, "variable-in-fragment", fmt.Sprintf("query($x: %s) { ...F } fragment F on Query { %s(v: $x) }", t.gql, f), map[string]interface{}{"x": v.js}, v.want)
+			expectValue(t, "default-used-in-fragment", fmt.Sprintf("query($x: %s = %s) { ...F } fragment F on Query { %s(v: $x) }", t.gql, lit, f), map[string]interface{}{}, v.want)
+			expectValue(t, "default-null-in-fragment", fmt.Sprintf("query($x: %s = %s) { ...F } fragment F on Query { %s(v: $x) }", t.gql, lit, f), map[string]interface{}{"x": nil}, v.want)
 			// nested in another variable position: literal object/list containing a variable is covered by lpint64
 		}
 		for _, w := range t.wrong {
@@ -567,5 +571,5 @@ func run(rp *explore.Report, tier string) {
 
 func init() {
 	reg.Register(&reg.Harness{Property: "C18", Name: "c18/arguments", Level: "exploration", Run: run,
-		Rule: "one echo field per argument type (all int/uint widths, named int/string, float32/64, bool, string, enum, []byte, time.Time, text-unmarshaler, pointers, optional-tagged, lists incl. nested and of pointers, nested input objects, a self-referential input object nested four levels deep) x boundary values x transport {literal, variable, default used (absent / null), default ignored}, plus one three-argument field fed by three variables in every combination of {default, none} x {absent, null, value} and every declaration order, plus variables as elements of list literals / fields of object literals / inside nested lists (all 32 subsets of five positions); oracle: the Go value recorded by the resolver equals the value sent, exactly one resolver call; wrong JSON kinds, missing required and unknown arguments are client errors with zero resolver calls; omitted optional arrives as nil/zero"})
+		Rule: "one echo field per argument type (all int/uint widths, named int/string, float32/64, bool, string, enum, []byte, time.Time, text-unmarshaler, pointers, optional-tagged, lists incl. nested and of pointers, nested input objects, a self-referential input object nested four levels deep) x boundary values x transport {literal, variable, default used (absent / null), default ignored; the argument in the operation or in a named fragment}, plus one three-argument field fed by three variables in every combination of {default, none} x {absent, null, value} and every declaration order, plus variables as elements of list literals / fields of object literals / inside nested lists (all 32 subsets of five positions); oracle: the Go value recorded by the resolver equals the value sent, exactly one resolver call; wrong JSON kinds, missing required and unknown arguments are client errors with zero resolver calls; omitted optional arrives as nil/zero"})
 }
